@@ -114,10 +114,10 @@ var ErrNotQuiescent = errors.New("simnet: endpoints did not come to rest")
 
 // WaitQuiescent blocks until all endpoints are at rest.
 func (n *Net) WaitQuiescent() error {
-	deadline := time.Now().Add(60 * time.Second)
+	deadline := time.Now().Add(30 * time.Second)
 	// every state change broadcasts; the timer only wakes the waiter up for the safety deadline
 	// (no helper goroutine: checks count goroutines)
-	t := time.AfterFunc(61*time.Second, func() {
+	t := time.AfterFunc(31*time.Second, func() {
 		n.mu.Lock()
 		n.cond.Broadcast()
 		n.mu.Unlock()
